@@ -654,6 +654,12 @@ static int fix_names (
 			}
 		}
 
+		/* in the BOUNDS section the reader takes these two words for a number */
+		if (!ILLutil_strcasecmp (buf, "inf") || !ILLutil_strcasecmp (buf, "infinity"))
+		{
+			sprintf (buf, "%d", i);
+		}
+
 		if (!EGLPNUM_TYPENAME_ILLis_lp_name_char (buf[0], 0))
 		{
 			if (symtab == NULL)
